@@ -378,3 +378,21 @@ func (eng *Engine) outBase() string {
 	}
 	return eng.verif
 }
+
+// inModule reports whether fn belongs to the module under verification (everything else is external).
+func (eng *Engine) inModule(fn *ssa.Function) bool {
+	if fn.Pkg != nil {
+		return strings.HasPrefix(fn.Pkg.Pkg.Path(), eng.modPath)
+	}
+	if fn.Parent() != nil {
+		return eng.inModule(fn.Parent())
+	}
+	if fn.Synthetic != "" {
+		// wrappers / thunks: follow the wrapped method's package
+		if o := fn.Object(); o != nil && o.Pkg() != nil {
+			return strings.HasPrefix(o.Pkg().Path(), eng.modPath)
+		}
+		return true
+	}
+	return false
+}
